@@ -35,6 +35,7 @@ type Engine struct {
 	LoadSeconds    float64
 	ginits         map[*ssa.Global]*globalInit
 	eventEff       map[*ssa.Function]*eventSet
+	pkgHint        string           // package of the contract whose targets are being resolved without a function
 	sigHint        *types.Signature // signature of the function value whose assumed contract is being resolved
 }
 
